@@ -38,9 +38,11 @@ fuzz_target!(|data: &[u8]| {
       eprintln!("C08-DISAGREEMENT malformed-accepted:{:?}", t);
       std::process::abort();
     }
-    (Some(_), Ok(Outcome::Rejected)) => {
-      eprintln!("C08-DISAGREEMENT valid-rejected:{:?}", t);
-      std::process::abort();
+    (Some(canon), Ok(Outcome::Rejected)) => {
+      if mon::exec::input_is_canonical(&c, &canon) {
+        eprintln!("C08-DISAGREEMENT valid-rejected:{:?}", t);
+        std::process::abort();
+      }
     }
     (Some(_), Err(_)) => {
       eprintln!("C08-DISAGREEMENT valid-input-panicked:{:?}", t);
